@@ -493,6 +493,10 @@ func (idx *HNSWIndex) SetEfSearch(ef int) {
 
 // randomLevel assigns random level using geometric distribution.
 func (idx *HNSWIndex) randomLevel() int {
+	if l, ok := verifHNSWLevelOverride(idx); ok {
+		return l
+	}
+
 	probability := 1.0 / float64(idx.M)
 	level := 0
 
